@@ -9,7 +9,9 @@ CONFIG = {
                  "written in Lean) + Rust-side metamorphic oracle (relabel/reorder/container => same bytes; one-edit non-isomorphic "
                  "variant, judged by an independent backtracking isomorphism test => different bytes)",
     "level_text": "Proof, for every hash function, depth guard and permutation limit (kernel-checked, no native_decide): (complete) two well-formed "
-                  "datasets canonicalised to the same bytes are isomorphic; (issued_bij) the returned id map is injective with range exactly "
+                  "datasets canonicalised to the same bytes are isomorphic - and (validated_terms_wellformed, complete_validated; regex disjointness by the verified "
+                  "decision procedure, native_decide) 'well-formed' is implied by the toolkit's own validators (regexes regenerated from /repo for IRI references, "
+                  "blank node labels, language tags), so no hypothesis beyond validated terms remains; (issued_bij) the returned id map is injective with range exactly "
                   "c14n0..c14n(n-1); (relabel_applies) the returned quads are the input with that map applied; (issued_total, issued_dom_iff, step6_never_panics, relabel_outcomes_explicit) "
                   "the map's domain is exactly the blank nodes of the dataset, no unwrap of step 6 / hash_related_bnode / hash_n_degree_quads can fail, "
                   "the recursion depth is bounded by the number of blank nodes, so the only outcomes are a result, Unsupported, ToxicGraph(depth|perms); (sorted_is_line_order) the term-wise comparison of the "
@@ -22,17 +24,20 @@ CONFIG = {
                   "non-isomorphic variants => different bytes).",
     "level_note": "Known finding C05-rdfc10-ambiguous-tie: label-/order-dependent output exactly where the transcription of RDFC-1.0 is itself ambiguous "
                   "(driver field x.amb=1: the Recommendation evaluated on the dataset enumerated forwards and backwards gives two documents); on such datasets "
-                  "the model's bytes are compared only for the order-preserving container. Trusted: the hand-written model (tied per case), sha2 crate (validated per digest), Rust str order = code-point "
+                  "the model's bytes are compared only for the order-preserving container. A one-off exhaustive search with the models (all 18473 datasets of <= 3 "
+                  "quads over 4 blank nodes x 1 predicate x {default, 2 IRI graphs}; all 44679 datasets of <= 6 edges from {b0,b1} to {b2,b3} in 4 graph options "
+                  "with 0-2 asymmetry quads) found 168 label-dependent datasets, every one flagged x.amb=1: no counterexample outside the ambiguous-tie class is known. "
+                  "Trusted: the hand-written model (tied per case), sha2 crate (validated per digest), Rust str order = code-point "
                   "order. The unrestricted soundness direction needs collision-freeness of the hash and is stated, not proved "
                   "(SophiaProofs.C05.SoundFull). The id map itself is NOT compared with the model (which automorphic node gets which id depends on iteration "
                   "order / permutation enumeration / tie order of an unstable sort and is not part of the property): the harness checks that it is a bijection "
                   "onto c14n0..n-1 mapping the input onto the returned quads, and the canonical bytes are compared exactly.",
-    "tables": ["cnq_escapes", "rdfc10_smaller_path"],
+    "tables": ["cnq_escapes", "rdfc10_smaller_path", "regexes"],
     "lean_targets": ["SophiaProofs.Props.C05", "SophiaProofs.Audit.C05"],
     "theorems": ["issued_bij", "relabel_applies", "issued_total", "issued_dom_iff", "step6_never_panics", "relabel_outcomes_explicit",
                  "flag_predicate_must_be_iri", "first_degree_invariant",
-                 "sorted_is_line_order", "output_lines_sorted", "complete", "sound_distinct_partial", "soundFull_refuted"],
-    "native_ok": ["soundFull_refuted"],
+                 "sorted_is_line_order", "output_lines_sorted", "complete", "complete_validated", "validated_terms_wellformed", "sound_distinct_partial", "soundFull_refuted"],
+    "native_ok": ["soundFull_refuted", "validated_terms_wellformed", "complete_validated"],
     "trivial_re": r"^st=unsupported|^h=",
     "rule": "symmetric-structure generator (cycles 1-10(22), chains, cliques 2-5, stars, double stars, bipartite, disjoint isomorphic copies, "
             "blank graph names, same edges in several graphs, hubs with multi-edges across graphs to equal-hash siblings plus a non-automorphic near-twin "
